@@ -134,9 +134,13 @@ PipeFails1(r) ==
 PipeFails(r) ==
     LET f0 == PipeFails1(r) IN
     IF f0 = {} \/ r.invalid = 1 \/ ~HasBBox(r.tree) THEN f0
-    ELSE IF \E c \in GeoChoices \ {NoCh} : PipeFails1([r EXCEPT !.tree = TreeWithChoice(r.tree, c)]) = {} THEN {} ELSE f0
+    ELSE LET alts == { PipeFails1([r EXCEPT !.tree = TreeWithChoice(r.tree, c)]) : c \in GeoChoices \ {NoCh} }
+             ok == { a \in alts : a \subseteq ObservationOnly }
+         IN IF ok # {} THEN CHOOSE a \in ok : TRUE ELSE f0
 DebugFails(r) ==
     LET f0 == DebugFails1(r) IN
     IF f0 = {} \/ ~HasBBox(r.tree) THEN f0
-    ELSE IF \E c \in GeoChoices \ {NoCh} : DebugFails1([r EXCEPT !.tree = TreeWithChoice(r.tree, c)]) = {} THEN {} ELSE f0
+    ELSE LET alts == { DebugFails1([r EXCEPT !.tree = TreeWithChoice(r.tree, c)]) : c \in GeoChoices \ {NoCh} }
+             ok == { a \in alts : a \subseteq ObservationOnly }
+         IN IF ok # {} THEN CHOOSE a \in ok : TRUE ELSE f0
 =============================================================================
